@@ -1236,3 +1236,25 @@ Lemma failed_dial_example : exists s0 s1 s2, run true init sched_down = Some s0 
   run true s1 [LReconnect; LLogEnq 1; LEnq 1; LSTop 1; LSPoll 1; LSBlkQueue 1; LSCheck 1; LSHook 1; LSWriteOk 1] = Some s2 /\
   cur s2 = Some 1 /\ got (gens s2 1) = [1] /\ c11_accepts (log s2) = true.
 Proof. eexists. eexists. eexists. split; [vm_compute; reflexivity|]. split; [vm_compute; reflexivity|]. split; [vm_compute; reflexivity|]. vm_compute. repeat split. Qed.
+
+(* ------------------------------------------------------------------------------------------------ *)
+(* connection.close is atomic with respect to the swap of the current connection: the identity test and the
+   write of the flag happen in ONE step (under connLock, which ReConnect holds for the whole dial), so the test
+   is decided on the state in which the flag is written *)
+Theorem close_atomic s l s' g : step true s l = Some s' -> closes l = Some g ->
+  closedF s' = (if is_cur s g then true else closedF s) /\ cur s' = cur s.
+Proof.
+  intros H CL. destruct l; cbn in CL; try discriminate; injection CL as ->; cbn [step] in H.
+  all: dstep H.
+  all: unfold do_close, w_sp, w_gen, w_gens; cbn; destruct (is_cur s g); auto.
+Qed.
+
+(* the seeded variant C11-m11 (test before the lock, flag after it): the loss of connection 0 is reported a second
+   time while the re-dial is in progress; the test sees 0 still current, the flag lands on the new connection 1 *)
+Lemma m11_refuted : exists s0 s1, run true init [LReconnect; LLogPClose 0; LPeerClose 0; LRClose 0] = Some s0 /\
+  close_decide_m11 s0 0 = true /\ step true s0 LReconnect = Some s1 /\
+  let s2 := close_commit_m11 s1 0 in
+  closedF s2 = true /\ cur s2 = Some 1 /\ dead (gens s2 1) = false /\ peerc (gens s2 1) = false /\
+  (* whereas the atomic close of the model, taken in the same state, leaves the new connection alone *)
+  closedF (do_close true s1 0) = false.
+Proof. eexists. eexists. split; [vm_compute; reflexivity|]. split; [reflexivity|]. split; [vm_compute; reflexivity|]. cbn. repeat split. Qed.
